@@ -1171,10 +1171,10 @@ theorem drel_advance {custom : Bool} {progs : List (List Op)} {s : St} {m : DMon
               | true =>
                 have hacc := (accepted_of_must hmd).1
                 simp only [Bool.and_eq_true, decide_eq_true_eq, Bool.or_eq_true, Bool.not_eq_true'] at hacc
-                simp only [emit_level, emit_shutdown, Bool.not_eq_true', Bool.and_eq_false_iff, decide_eq_false_iff_not,
+                simp only [emit_level, emit_shutdown, Bool.not_eq_true', Bool.and_eq_false_iff,
                   Bool.or_eq_false_iff, Bool.not_eq_false'] at hrej
                 rcases hrej with hr | ⟨hr1, hr2⟩
-                · exact absurd hacc.1 hr
+                · exact absurd hacc.1 (of_decide_eq_false hr)
                 · rcases hacc.2 with hd | hd
                   · rw [hr1] at hd; cases hd
                   · rw [hr2] at hd; cases hd
